@@ -301,14 +301,26 @@ class State:
             if lin.c == 0:
                 raise Infeasible()
             return
-        self.neqs.append(lin)
         nl = -lin
+        # if the sign is already known, the disequality is a strict inequality
+        lo, hi = static_bounds(lin)
+        if (lo is not None and lo >= 0) or any(f == lin for f in self.facts):
+            self.facts = [f for f in self.facts if f != lin]
+            self.facts.append(lin - 1)
+            return
+        if (hi is not None and hi <= 0) or any(f == nl for f in self.facts):
+            self.facts = [f for f in self.facts if f != nl]
+            self.facts.append(nl - 1)
+            return
+        if len(lin.t) <= 3:
+            if entails_ge0(self.facts, lin):
+                self.facts.append(lin - 1)
+                return
+            if entails_ge0(self.facts, nl):
+                self.facts.append(nl - 1)
+                return
+        self.neqs.append(lin)
         self.neqs.append(nl)
-        for i, f in enumerate(self.facts):
-            if f == lin:
-                self.facts[i] = lin - 1
-            elif f == nl:
-                self.facts[i] = nl - 1
 
     def assume(self, f):
         k = f[0]
